@@ -1045,7 +1045,11 @@ func (t *objectType) createAttributesInfo() *attributesInfo {
 	nonOptSize := 0
 	if t.serialization == nil {
 		optAttrs := make([]px.Attribute, 0)
-		t.EachAttribute(true, func(attr px.Attribute) {
+		// An overriding attribute replaces the inherited one (at the position of the inherited one)
+		atMap := hash.NewStringHash(15)
+		t.collectAttributes(true, atMap)
+		atMap.EachValue(func(av interface{}) {
+			attr := av.(px.Attribute)
 			switch attr.Kind() {
 			case constant, derived:
 			case givenOrDerived:
